@@ -20,6 +20,16 @@ import (
 
 const verifRoot = "/verif"
 
+// outRoot is where a run writes (evidence, replays, scratch). It is /verif unless VERIF_OUT
+// redirects it, which tools/seedrun.sh uses to try a seeded change on a private copy of the
+// repository without touching /repo, /verif/evidence or a check that is running concurrently.
+var outRoot = func() string {
+	if d := os.Getenv("VERIF_OUT"); d != "" {
+		return d
+	}
+	return verifRoot
+}()
+
 // Replay is the self-contained description of one failing execution.
 type Replay struct {
 	Property string                 `json:"property"`
@@ -316,7 +326,7 @@ func (c *Ctx) finish() int {
 }
 
 func (c *Ctx) writeReplay(v *Violation) string {
-	dir := filepath.Join(verifRoot, "replays")
+	dir := filepath.Join(outRoot, "replays")
 	_ = os.MkdirAll(dir, 0o755)
 	h := sha256.Sum256([]byte(v.Sig))
 	path := filepath.Join(dir, fmt.Sprintf("%s-%s.json", c.ID, hex.EncodeToString(h[:5])))
@@ -382,7 +392,7 @@ func (c *Ctx) writeEvidence(nviol int) {
 		ev["assumptions"] = []string{"Go toolchain, go build -overlay and the instrumenter are trusted"}
 	}
 	js, _ := json.MarshalIndent(ev, "", " ")
-	dir := filepath.Join(verifRoot, "evidence")
+	dir := filepath.Join(outRoot, "evidence")
 	_ = os.MkdirAll(dir, 0o755)
 	if err := os.WriteFile(filepath.Join(dir, c.ID+".json"), append(js, '\n'), 0o644); err != nil {
 		fmt.Fprintln(os.Stderr, "cannot write evidence:", err)
@@ -529,7 +539,7 @@ func (c *Ctx) Sharded(n int, body func(i int)) {
 	}
 	claimDir := ""
 	if c.Dynamic && N > 1 && os.Getenv("VERIF_INPROC") == "" {
-		claimDir = filepath.Join(verifRoot, "build", "tmp", fmt.Sprintf("claim-%s-%d-%d", c.ID, os.Getpid(), c.shardCall))
+		claimDir = filepath.Join(outRoot, "build", "tmp", fmt.Sprintf("claim-%s-%d-%d", c.ID, os.Getpid(), c.shardCall))
 		_ = os.RemoveAll(claimDir)
 		_ = os.MkdirAll(claimDir, 0o755)
 		defer os.RemoveAll(claimDir)
@@ -540,7 +550,7 @@ func (c *Ctx) Sharded(n int, body func(i int)) {
 		}
 		return
 	}
-	tmp := filepath.Join(verifRoot, "build", "tmp")
+	tmp := filepath.Join(outRoot, "build", "tmp")
 	_ = os.MkdirAll(tmp, 0o755)
 	var wg sync.WaitGroup
 	results := make([]*workerResult, N)
